@@ -61,11 +61,17 @@ class Env:
 
     def default_action(self, idle=False):
         s = self.sess
+        if idle:
+            # nobody is blocked in a call: the environment only acts while the caller waits
+            return False
         # 1. an outstanding suspension is released at the first quiescent point
         for rec in s.suspensions:
             if not rec["released"]:
                 s.release(rec, auto=True)
                 return True
+        # 1b. scenario-specific environment (e.g. a real suspender's signal going back to normal)
+        if hasattr(s.scn, "env_default") and s.scn.env_default(s):
+            return True
         # 2. manual statuses complete
         if s.ctx.manual:
             st = s.ctx.manual[0]
